@@ -37,6 +37,7 @@ import (
 	"math/big"
 	"os"
 	"path/filepath"
+	"reflect"
 	"sort"
 	"strconv"
 	"strings"
@@ -76,6 +77,7 @@ type caseInput struct {
 	Payloads []payloadSpec `json:"payloads"`
 	Cast     []castSpec    `json:"cast"`
 	Ops      []opSpec      `json:"ops"`
+	Large    *largeSpec    `json:"large,omitempty"` // large-sign-dump-load-verify: no history, see runLarge
 }
 
 // ---------------------------------------------------------------- keys
@@ -636,6 +638,118 @@ func roundTripAny(p any) any {
 		return roundTrip(x)
 	}
 	return p
+}
+
+// every control byte (0x00..0x1f, 0x7f) alone, at the start, in the middle and at the end of signed strings
+func ctrlLink(r *lib.Rng, b byte) intoto.Link {
+	c := string([]byte{b})
+	l := genLink(r)
+	l.ByProducts["stdout"] = c
+	l.ByProducts["stderr"] = "line" + c + "end" + c
+	l.Command = []string{"printf", c + "start", "mid" + c + "dle", "end" + c}
+	l.Materials = map[string]intoto.HashObj{"src/a" + c + "b.c": {"sha256": "01"}, c + "x": {"sha256": "02"}}
+	l.Products = map[string]intoto.HashObj{"out" + c: {"sha256": "03"}}
+	l.Environment["workdir"] = "/tmp/" + c
+	return roundTrip(l)
+}
+func ctrlLayout(r *lib.Rng, b byte) intoto.Layout {
+	c := string([]byte{b})
+	l := genLayout(r)
+	l.Readme = c + "read" + c + "me" + c
+	l.Steps[0].Name = "bu" + c + "ild"
+	l.Steps[0].ExpectedCommand = []string{"make", c}
+	l.Steps[0].ExpectedMaterials = [][]string{{"ALLOW", "src/" + c + "*"}, {"ALLOW", c + "*" + c}}
+	l.Inspect[0].Run = []string{"sh", "-c", "echo " + c}
+	return roundTrip(l)
+}
+
+// ---------------------------------------------------------------- large metadata (no model, no cast: one key)
+
+type largeSpec struct {
+	Wrapper   string `json:"wrapper"`
+	TenthsMiB int    `json:"tenths_mib"` // size of the dumped FILE in tenths of a MiB
+}
+
+func largeLink(artifacts int, stdout int) intoto.Link {
+	l := intoto.Link{Type: "link", Name: "large", Materials: map[string]intoto.HashObj{}, Products: map[string]intoto.HashObj{},
+		ByProducts: map[string]interface{}{"return-value": float64(0), "stderr": ""}, Command: []string{"make", "all"}, Environment: map[string]interface{}{}}
+	for i := 0; i < artifacts; i++ {
+		h := fmt.Sprintf("%064x", uint64(i)*0x9E3779B97F4A7C15)
+		if i%2 == 0 {
+			l.Materials[fmt.Sprintf("src/dir-%04d/file-%07d.c", i/100, i)] = intoto.HashObj{"sha256": h}
+		} else {
+			l.Products[fmt.Sprintf("out/dir-%04d/file-%07d.o", i/100, i)] = intoto.HashObj{"sha256": h}
+		}
+	}
+	l.ByProducts["stdout"] = strings.Repeat("compiling one more translation unit ... ok\n", stdout/43+1)[:stdout]
+	return l
+}
+
+// sign -> Dump -> LoadMetadata -> VerifySignature on a link whose dumped file has about the given size;
+// every step must succeed and the loaded content must be the signed content
+func runLarge(sp largeSpec) (impl, oracle string) {
+	target := sp.TenthsMiB * (1 << 20) / 10
+	key := pool["ed1"]
+	path := tmpFile()
+	defer os.Remove(path)
+	build := func(stdout int) (intoto.Link, intoto.Metadata, error) {
+		l := largeLink(target/10/160, stdout) // about a tenth of the file in artifacts
+		md, err := freshObject(sp.Wrapper, l)
+		return l, md, err
+	}
+	// size of the file with an empty stdout, then fill up (stdout is ASCII: one byte per character,
+	// 4/3 through base64; "\n" takes two bytes in JSON)
+	_, md0, err := build(0)
+	if err != nil {
+		return "setup:F", "setup:T"
+	}
+	if err := md0.Dump(path); err != nil {
+		return "setup:F", "setup:T"
+	}
+	fi, _ := os.Stat(path)
+	fill := target - int(fi.Size())
+	if fill < 0 {
+		fill = 0
+	}
+	fill = fill * 43 / 44
+	if sp.Wrapper == "dsse" {
+		fill = fill * 3 / 4
+	}
+	l, md, err := build(fill)
+	if err != nil {
+		return "setup:F", "setup:T"
+	}
+	var steps []string
+	add := func(name string, ok bool) {
+		steps = append(steps, name+":"+map[bool]string{true: "T", false: "F"}[ok])
+	}
+	add("sign", lib.Recover(func() string { return status(md.Sign(key.Priv)) }) == "T")
+	add("verify-in-memory", lib.Recover(func() string { return status(md.VerifySignature(key.Pub)) }) == "T")
+	add("dump", lib.Recover(func() string { return status(md.Dump(path)) }) == "T")
+	fi, _ = os.Stat(path)
+	var loaded intoto.Metadata
+	lst := lib.Recover(func() string {
+		m, err := intoto.LoadMetadata(path)
+		loaded = m
+		return status(err)
+	})
+	add("load", lst == "T")
+	if lst == "T" && loaded != nil {
+		add("verify-loaded", lib.Recover(func() string { return status(loaded.VerifySignature(key.Pub)) }) == "T")
+		ll, ok := loaded.GetPayload().(intoto.Link)
+		add("content-equal", ok && reflect.DeepEqual(ll, l))
+		add("signatures-kept", len(loaded.Sigs()) == 1)
+	} else {
+		add("verify-loaded", false)
+		add("content-equal", false)
+		add("signatures-kept", false)
+	}
+	// the file size is within 3 % of the target (so that the sizes straddle what they are meant to straddle)
+	dev := float64(fi.Size())/float64(target) - 1
+	add("file-size-as-announced", dev > -0.03 && dev < 0.03)
+	impl = strings.Join(steps, "; ")
+	oracle = strings.ReplaceAll(impl, ":F", ":T")
+	return impl, oracle
 }
 
 func decodePayload(ps payloadSpec) any {
@@ -2077,6 +2191,34 @@ func systematic(r *lib.Rng, all bool) []struct {
 				})
 			})
 		}
+		// control characters in signed strings (DSSE payloads need them escaped; the Metablock twin too)
+		{
+			ctrl := []byte{0x7f}
+			for b := 0; b < 0x20; b++ {
+				ctrl = append(ctrl, byte(b))
+			}
+			for _, b := range ctrl {
+				b := b
+				for _, kind := range []string{"link", "layout"} {
+					kind := kind
+					var p any
+					if kind == "link" {
+						p = ctrlLink(r.Fork(), b)
+					} else {
+						p = ctrlLayout(r.Fork(), b)
+					}
+					klass := "dsse-control-characters"
+					if !(b == 0x00 || b == 0x08 || b == 0x0a || b == 0x0b || b == 0x1f || b == 0x7f) || kind == "layout" {
+						klass = "dsse-control-characters-nomodel" // evaluated against the oracle only (keeps the Coq run short)
+					}
+					emit(w, kind, klass, []string{"ed1", "ecdsa256", "ed2"}, func(in *caseInput) {
+						in.Payloads = []payloadSpec{{Kind: kind, Field: fmt.Sprintf("control-0x%02x", b), JSON: lib.MustJSON(p)}}
+						in.Ops = []opSpec{{Kind: "sign", Key: 0}, {Kind: "dumpload"}, {Kind: "sign", Key: 1}, {Kind: "dumpload"},
+							{Kind: "addsig", Key: len(in.Cast) - 1, Mut: "independent"}}
+					})
+				}
+			}
+		}
 		// hostile files with a doubled member (other letter case / exact duplicate), attacker's value first and last
 		{
 			members := map[string][][2]string{
@@ -2246,6 +2388,10 @@ func put(w *lib.Writer, in caseInput, klass string) {
 		klass = res.Klass
 	}
 	inp := lib.MustJSON(in)
+	if strings.HasSuffix(klass, "-nomodel") {
+		klass = strings.TrimSuffix(klass, "-nomodel")
+		res.NoModel = true
+	}
 	if strings.HasPrefix(klass, "nullness-") || res.NoModel {
 		res.Coq = "" // the model's lists do not distinguish nil from empty / the model has no file parser
 	}
@@ -2282,6 +2428,17 @@ func main() {
 		for _, s := range systematic(r.Fork(), thorough) {
 			put(w, s.in, s.klass)
 		}
+		sizes := []int{10, 40, 79, 81, 120}
+		if thorough {
+			sizes = append(sizes, 170)
+		}
+		for _, wr := range []string{"legacy", "dsse"} {
+			for _, t := range sizes {
+				sp := largeSpec{Wrapper: wr, TenthsMiB: t}
+				impl, oracle := runLarge(sp)
+				w.Put(lib.Case{Klass: "large-sign-dump-load-verify", Input: lib.MustJSON(caseInput{Wrapper: wr, Large: &sp}), Impl: impl, Oracle: oracle})
+			}
+		}
 		maxLen := 4
 		if thorough {
 			maxLen = 6
@@ -2301,6 +2458,13 @@ func main() {
 		}
 		if err := json.Unmarshal(b, &c); err != nil {
 			panic(err)
+		}
+		if c.Input.Large != nil {
+			impl, oracle := runLarge(*c.Input.Large)
+			fmt.Printf("large link, dumped file of about %.1f MiB, wrapper %s, key ed1\n", float64(c.Input.Large.TenthsMiB)/10, c.Input.Large.Wrapper)
+			fmt.Println("impl:   " + impl)
+			fmt.Println("oracle: " + oracle)
+			return
 		}
 		for i, k := range c.Input.Cast {
 			fmt.Printf("cast %d: %+v\n", i, k)
